@@ -17,6 +17,7 @@
 //         written); anything else = crash (driver inspects stderr).
 #pragma once
 #include <algorithm>
+#include <atomic>
 #include <cinttypes>
 #include <cmath>
 #include <csignal>
@@ -113,6 +114,29 @@ struct J {
   J& obj(const char* k, const J& v) { return raw(k, v.done()); }
   std::string done() const { return s.empty() ? "{}" : s + "}"; }
 };
+
+// ---------------------------------------------------------------- repo hook receiver
+// /repo's GEOGRAPHICLIB_PANIC (silent convergence failure) calls this weak symbol when the
+// library is built with -DGEOGRAPHICLIB_VERIF_HOOKS.  Thread-safe (atomics only).
+namespace hook {
+  struct Slot { std::atomic<const char*> msg; std::atomic<uint64_t> n; };
+  inline Slot g_slots[32];
+  inline std::atomic<uint64_t> g_total{0};
+  inline void record(const char* msg) {
+    g_total.fetch_add(1, std::memory_order_relaxed);
+    for (auto& sl : g_slots) {
+      const char* cur = sl.msg.load(std::memory_order_acquire);
+      if (cur == nullptr) { const char* exp = nullptr; if (sl.msg.compare_exchange_strong(exp, msg)) cur = msg; else cur = exp; }
+      if (cur == msg || (cur && std::strcmp(cur, msg) == 0)) { sl.n.fetch_add(1, std::memory_order_relaxed); return; }
+    }
+  }
+  inline uint64_t panics() { return g_total.load(std::memory_order_relaxed); }
+}
+}  // namespace vh
+extern "C" __attribute__((weak, used)) void geographiclib_verif_event(const char* kind, const char* msg) {
+  if (kind && kind[0] == 'p') vh::hook::record(msg ? msg : "?");
+}
+namespace vh {
 
 // ---------------------------------------------------------------- context
 struct Section;
@@ -268,6 +292,7 @@ inline int run_sections(int argc, char** argv, std::vector<Section> secs) {
     }
   }
   // final statistics
+  for (auto& sl : hook::g_slots) { const char* m = sl.msg.load(); if (m) c.events[std::string("hook:panic:") + m] += sl.n.load(); }
   {
     std::string cl, ev, vk, ob, sm;
     for (auto& kv : c.cls) { cl += cl.empty() ? "{" : ","; cl += "\"" + jesc(kv.first) + "\":" + std::to_string(kv.second); }
